@@ -238,8 +238,13 @@ def main():
                 if not arg:
                     return numpy.array(
                         self.popmat.get_PropagationMatrix(ts))
-                U, orders = self.popmat.get_PropagationMatrix(
+                res = self.popmat.get_PropagationMatrix(
                     ts, corrections=arg, exact=True)
+                if not isinstance(res, tuple):
+                    return numpy.array(res)
+                U, orders = res
+                if isinstance(orders, numpy.ndarray):
+                    orders = (orders,)
                 return numpy.array([U] + [numpy.array(o) for o in orders])
             if name == "sv_propagate":
                 r = self.svprop.propagate(self.psi0)
